@@ -168,6 +168,19 @@ except ZeroDivisionError as exc:
     print("DEFECT: second call raised %r; the filter's denominator is now "
           "%s" % (exc, f.denpoly))
 """),
+  ("14 C06 Poly / (one-term Poly with a Stream coefficient) shares the Stream", r"""
+reads = [0]
+def src():
+    i = 0
+    while True:
+        reads[0] += 1; i += 1; yield Fraction(i)
+num = Poly([Fraction(1), Fraction(2), Fraction(3)]) / Poly({0: Stream(src())})
+out = ZFilter(num)(Stream(Fraction(1)), zero=Fraction(0)).take(4)
+want = [Fraction(1), Fraction(3, 2), Fraction(2), Fraction(3, 2)]
+print("ok" if out == want and reads[0] == 4 else
+      "DEFECT: y = (x[n] + 2x[n-1] + 3x[n-2]) / g[n] gives %s, %d reads of g "
+      "for 4 samples" % ([str(v) for v in out], reads[0]))
+"""),
 ]
 
 
